@@ -143,9 +143,11 @@ def run_case(case):
     if kind == 'dest':
         orig, tap = capture('directed_percolate_network')
         sim.directed_percolate_network = tap
+        from .. import rngprobe
+        from . import c11
         try:
-            simcase.seed_all(case['seed'])
-            got = EoN.estimate_directed_SIR_prob_size(G, case['tau'], case['gamma'])
+            with rngprobe.monitor(seed=case['seed']) as px:
+                got = EoN.estimate_directed_SIR_prob_size(G, case['tau'], case['gamma'])
         except Exception as e:
             viol(res, 'estimate_directed_SIR_prob_size|exception:%s' % simcase.exc_key(e), {'err': repr(e)})
             return res
@@ -160,6 +162,16 @@ def run_case(case):
             viol(res, 'estimate_directed_SIR_prob_size|percolated_graph_on_same_nodes', {})
         else:
             check_pair(res, 'estimate_directed_SIR_prob_size', got, list(H), {(u, v): 1 for u, v in H.edges()})
+            # "contains u->v exactly when the rule says u would transmit to v": the Markovian rule is one exponential duration per node and
+            # one exponential delay per neighbour, read off the draw log (same reading as C11's builder check)
+            dur, delay, bad = c11._markov_tables_from_log(G, px.log, case['tau'], case['gamma'])
+            if bad:
+                viol(res, 'estimate_directed_SIR_prob_size|percolated_graph_not_drawn_by_the_markovian_rule|%s' % bad[0], {'found': repr(bad[1])[:80], 'tau': case['tau'], 'gamma': case['gamma']})
+            else:
+                arcs = perc.kept_arcs(nodes, nbrs, dur, delay)
+                bump(res, 'arcs_rule_checked', len(arcs) + 1)
+                if set(H.edges()) != set(arcs):
+                    viol(res, 'estimate_directed_SIR_prob_size|arc_iff_rule_says_u_transmits_to_v', {'H_edges': H.number_of_edges(), 'rule_arcs': len(arcs)})
         if G.number_of_edges():
             res['nontrivial'] = 'dest:%s:%s:%s' % (gen.iso_key(case), case['tau'], case['gamma'])
             res['sample'] = {'kind': 'dest', 'graph': {'n': case['n'], 'edges': case['edges']}, 'result': list(got)}
